@@ -8,10 +8,10 @@ import random
 
 def decor_spec(rng, sync, wrap_ok=True):
     d = {"sync": sync, "w": rng.choice([0, 0, 0, 6, 9]), "space": rng.random() < 0.3,
-         "right": rng.random() < 0.3, "needs": [rng.randint(0, 4) for _ in range(rng.randint(1, 3))],
+         "right": rng.random() < 0.3, "needs": [rng.choice([-1, 0, 1, 2, 3, 4]) for _ in range(rng.randint(1, 3))],   # -1: nothing to show in that frame
          "listen": rng.random() < 0.25, "ewma": False, "wrap": []}
     if wrap_ok and rng.random() < 0.35:
-        d["wrap"] = rng.sample(["oncomplete", "onabort", "meta", "custom", "either", "oncompletemeta", "onabortmeta", "eithermeta"], rng.randint(1, 3))
+        d["wrap"] = rng.sample(["oncomplete", "onabort", "meta", "custom", "either", "oncompletemeta", "onabortmeta", "eithermeta", "oncomplete0", "onabort0"], rng.randint(1, 3))
     # a decorator may implement several of the optional interfaces at once
     d["ewma"] = rng.random() < 0.15
     return d
@@ -190,6 +190,15 @@ def gen_base(rng, sid, family="base", n=None, q=None, refresh="auto", pop=None, 
             cfg["outfault"] = rng.randint(1, 3)
         else:
             victim["fault"] = {"kind": kind, "at": rng.randint(1, 4)}
+            if rng.random() < 0.4:
+                # the failing bar takes no part in the width exchange; the others share a column and may be in the middle of
+                # their exchange when the error stops the cycle
+                for key in ("pre", "app"):
+                    for d in victim.get(key, []):
+                        d["sync"] = False
+                for o in progs[0]:
+                    if o["op"] == "add" and o is not victim:
+                        o.setdefault("pre", []).insert(0, decor_spec(rng, True))
             if kind == "ext":
                 victim["extrev"] = rng.random() < 0.5
             if kind == "fill" and rng.random() < 0.25:
@@ -207,6 +216,10 @@ def gen_base(rng, sid, family="base", n=None, q=None, refresh="auto", pop=None, 
         for c in range(nclients):
             for _ in range(rng.randint(0, 3)):
                 progs[c].insert(rng.randint(0, len(progs[c])), {"op": "refresh"})
+        if rng.random() < 0.2:
+            # the producer of the refresh requests closes its channel at some point (a closed channel refreshes without end)
+            c = rng.randrange(nclients)
+            progs[c].insert(rng.randint(0, len(progs[c])), {"op": "closerefresh"})
     if tail:
         # quiet tail: every bar has exited before the last lines are written and Wait is called,
         # so only the final render can carry them
@@ -365,6 +378,17 @@ def family(name, rng, sid):
                 for key in ("pre", "app"):
                     if rng.random() < 0.6:
                         o.setdefault(key, []).append(decor_spec(rng, True))
+        return sc
+    if name == "many":
+        # more bars than the default queue length of the heap manager (128), and a queue made long enough for them
+        n = rng.randint(130, 136)
+        sc = gen_base(rng, sid, "many", n=n, q=4 * n, clients=rng.choice([1, 2]), ext=False, pop=False)
+        for o in sc["clients"][0]:
+            if o["op"] == "add":
+                o.pop("pre", None)
+                o.pop("app", None)
+        sc["cfg"]["width"] = 200
+        sc["sched"]["budget"] = 60000
         return sc
     if name == "uwg":
         # a user wait group (WithWaitGroup): the first client only creates the bars and waits, the workers finish them and
